@@ -14,6 +14,7 @@ import subprocess
 import sys
 
 VERIF = os.path.dirname(os.path.dirname(os.path.abspath(__file__)))
+BASE = os.environ.get("SEED_BASE", "/tmp/sw")  # where the sub-agents delivered: <BASE>/<ID>/out/<k>/
 
 
 def parse_first_run(path):
@@ -43,10 +44,10 @@ def main():
     batch = sys.argv[1]
     ids = sys.argv[2:]
     for ID in ids:
-        fr = parse_first_run(f"/tmp/sw/{ID}/first_run.txt")
+        fr = parse_first_run(f"{BASE}/{ID}/first_run.txt")
         dirs = []
         for k in ("1", "2", "3"):
-            sd = f"/tmp/sw/{ID}/out/{k}"
+            sd = f"{BASE}/{ID}/out/{k}"
             name = f"{ID}{batch}-{k}"
             rf = f"/tmp/cf/{name}.result"
             if not (os.path.exists(os.path.join(sd, "patch.diff")) and os.path.exists(rf)):
@@ -61,9 +62,9 @@ def main():
             dirs.append((k, sd, name, kv))
         if not dirs:
             continue
-        out = subprocess.run([sys.executable, os.path.join(VERIF, "tools", "seedcheck_par.py"), "--jobs", "8", "--json", f"/tmp/sw/{ID}/now.json"] + [d[1] for d in dirs],
+        out = subprocess.run([sys.executable, os.path.join(VERIF, "tools", "seedcheck_par.py"), "--jobs", "8", "--json", f"{BASE}/{ID}/now.json"] + [d[1] for d in dirs],
                              capture_output=True, text=True, cwd=VERIF).stdout
-        now = json.load(open(f"/tmp/sw/{ID}/now.json"))
+        now = json.load(open(f"{BASE}/{ID}/now.json"))
         for k, sd, name, kv in dirs:
             cur = now.get(os.path.abspath(sd), {"fired": [], "analysis_error": [], "lines": {}})
             rules = sorted({r for ls in cur["lines"].values() for l in ls for r in re.findall(r"— (R-[A-Z-]+) —", l)})
@@ -77,7 +78,7 @@ def main():
             meta = {
                 "name": name,
                 "breaks_property": ID,
-                "source": "independent sub-agent given only the property text and a scratch worktree (batch %s: one change each for an unusual input, a history, two cooperating sites)" % batch,
+                "source": ("independent sub-agent given only the property text and a scratch worktree (batch %s: " % batch) + ("two changes each, written to look like an ordinary refactoring / optimisation pull request)" if batch == "e" else "one change each for an unusual input, a history, two cooperating sites)"),
                 "what": first_para(notes, ("what it does", "change", "what the")),
                 "needs_to_manifest": first_para(notes, ("manifest", "needs", "trigger", "when it shows")),
                 "confirmed": {
